@@ -53,7 +53,9 @@ WS = ' \t\n'
 # (delim, range_delim) pairs; the Lean model covers the one-character pairs (DelimOK: different, no digit, no blank -
 # the pairs outside DelimOK are still modelled faithfully, only the theorems do not speak about them)
 DELIMS = [[';', ':'], ['|', '~'], ['/', '_'], [':', '>'], ['x', '-'], [',', ':'], [';', '-'], ['-', ','], ['+', '_'],
-          ['\u00b7', '\u2192'], [' ', '-'], ['\n', '-'], ['; ', '-'], [',', '..'], ['|', ' to '], ['/', '\u2013']]
+          ['\u00b7', '\u2192'], [' ', '-'], ['\n', '-'], ['; ', '-'], [',', '..'], ['|', ' to '], ['/', '\u2013'],
+          # round 3: multi-character delimiters are in the model too; overlapping / self-overlapping / nested ones
+          [', ', '..'], ['::', ':'], ['ab', 'a'], [',,', ','], ['..', '.'], ['aa', 'a,'], ['; ', ' to '], ['=>', '=']]
 
 # earlier calls that raise midway or whose result the caller modifies (see module docstring)
 PRE_STEPS = [
@@ -300,8 +302,8 @@ class C14(Property):
             'kind of call after each of 33 earlier calls that raise midway (floats / None / junk), succeed (gzip / gunzip) or whose returned '
             'list the caller modifies, run on a freshly executed module (hermetic, self-contained replay); arguments as '
             'tuple / one-shot iterator / set, bools and 2**64-sized ints; escape_shell_args with sys.platform = win32 / '
-            'darwin; 16 (delim, range_delim) pairs (one-character pairs in the model, multi-character ones oracle '
-            'only) x all lists <= 3 over 0..4, scrambled texts, windows; gzip with the default level and 2-16 MiB of '
+            'darwin; 24 (delim, range_delim) pairs (one-character pairs AND, round 3, multi-character ones in the model) '
+            'x all lists <= 3 over 0..4, scrambled texts, windows; gzip with the default level and 2-16 MiB of '
             'compressible data. Every call is made twice (and once with delim_space / the window changed in '
             'between), list arguments must come back unmodified, the list parse_int_list returned is modified before '
             'parse_int_list is asked again; int_ranges_from_int_list of a well-formed text must be its maximal runs.')
@@ -580,7 +582,11 @@ class C14(Property):
                 yield {'k': 'parse', 's': text, 'dl': dl}
                 yield {'k': 'compl', 's': text, 'a': rng.choice([0, 0, 1, 5, -2]), 'e': rng.choice([None, 0, 10, 31, 40]), 'dl': dl}
             if self.model_delims(*dl):
-                palpha = ['1', '0', dl[0], dl[1], ' ']
+                # (for a multi-character delimiter: the whole delimiter AND its single characters, so that partial
+                # / overlapping occurrences of a separator are tried)
+                palpha = list(dict.fromkeys(['1', '0', dl[0], dl[1], ' '] + [c for c in dl[0] + dl[1]]))
+                if len(palpha) > 7:
+                    palpha = palpha[:7]
                 for n in range(0, 5 if T else 4):
                     for t in itertools.product(palpha, repeat=n):
                         yield {'k': 'parse', 's': ''.join(t), 'dl': dl}
@@ -830,10 +836,17 @@ class C14(Property):
 
     @staticmethod
     def model_delims(d, rd):
-        """the model has one-character delimiters; its blanks are ' ', tab, newline (Python's str.strip()/int()
-        know more), so any other white-space character as a delimiter is left to the oracle"""
-        for c in (d, rd):
-            if len(c) != 1 or has_surrogate(c) or c == '\0' or (c.isspace() and c not in WS):
+        """the model has one-character delimiters (Char functions) and, round 3, non-empty string delimiters (the
+        ...S functions); its blanks are ' ', tab, newline (Python's str.strip()/int() know more), so any other
+        white-space character in a delimiter is left to the oracle"""
+        for s in (d, rd):
+            if len(s) < 1 or len(s) > 8 or has_surrogate(s) or '\0' in s:
+                return False
+            if any(c.isspace() and c not in WS for c in s):
+                return False
+            # inside a multi-character delimiter a sign or an underscore could be left over next to a number after
+            # the split, and Python's int() gives those a meaning the model's int() does not have
+            if len(s) > 1 and any(c in '+-_' or c.isdigit() for c in s):
                 return False
         return True
 
@@ -867,16 +880,19 @@ class C14(Property):
                 return None
             custom = 'dl' in case
             pre = [hx(d), hx(rd)] if custom else []
+            suf = 's' if (len(d) > 1 or len(rd) > 1) else 'd'      # string-delimiter model / one-character model
+            if suf == 's':
+                self.stats['multichar_delims_in_model'] = self.stats.get('multichar_delims_in_model', 0) + 1
             if k == 'fmt':
                 if any((not isinstance(x, int)) or x < 0 for x in case['L']):
                     return None
                 ints = ','.join(str(int(x)) for x in case['L']) or '-'
-                return ' '.join(['fmtd' if custom else 'fmt', '%d' % case['sp']] + pre + [ints])
+                return ' '.join(['fmt' + suf if custom else 'fmt', '%d' % case['sp']] + pre + [ints])
             if not self.in_parse_alphabet(case['s'], d, rd):
                 return None
             if k == 'parse':
-                return ' '.join(['parsed' if custom else 'parse'] + pre + [hx(case['s'])])
-            return ' '.join(['compld' if custom else 'compl'] + pre +
+                return ' '.join(['parse' + suf if custom else 'parse'] + pre + [hx(case['s'])])
+            return ' '.join(['compl' + suf if custom else 'compl'] + pre +
                             [hx(case['s']), '%d' % case['a'], 'N' if case['e'] is None else '%d' % case['e']])
         return None
 
